@@ -94,6 +94,9 @@ pub struct EstabCase {
     pub std_stream: StdKind,
     pub sync_api: bool,
     pub peer: Peer,
+    /// connect with a clone of the settings object (pools and reconnect loops do)
+    #[serde(default)]
+    pub clone_settings: bool,
 }
 
 #[derive(Clone, Debug, Default, PartialEq, Serialize, Deserialize)]
@@ -708,10 +711,15 @@ pub fn run_case(case: &EstabCase, tokio_seed: u64) -> EstabObs {
     if let Some(s) = std_stream {
         settings = settings.set_std_stream(s);
     }
+    if case.clone_settings {
+        let c = settings.clone();
+        drop(settings);
+        settings = c;
+    }
     // --- the call ----------------------------------------------------------------------------
     crate::exec::IN_SIM.with(|f| *f.borrow_mut() = true);
     let want_bind = case.lane == "tls";
-    let injected = matches!(&case.peer, Peer::Tls { starttls: StartTlsResp::SuccessPlusInjected, .. });
+    let injected = matches!(&case.peer, Peer::Tls { starttls: StartTlsResp::SuccessPlusInjected, .. }) || case.std_stream == StdKind::Unix;
     let url2 = url.clone();
     let r = std::panic::catch_unwind(std::panic::AssertUnwindSafe(move || {
         if case.sync_api {
